@@ -360,7 +360,7 @@ pub fn suite_run(ctx: &mut Ctx, suite: &str, n: u64) {
 /// the model's answer to a run request: what comes before the `posterr` marker, and what comes after it
 pub fn split_post(m: Vec<String>) -> (Vec<String>, Vec<String>) {
     match m.iter().position(|l| l == "posterr") {
-        Some(i) => (m[..i].to_vec(), m[i + 1..].iter().filter(|l| !l.starts_with("rng ")).cloned().collect()),
+        Some(i) => (m[..i].to_vec(), m[i + 1..].to_vec()),
         None => (m, vec![]),
     }
 }
@@ -390,9 +390,17 @@ pub fn judge_run_case(ctx: &mut Ctx, suite: &str, cs: u64, case: &Case, src: &st
     if pi != pm {
         add_finding(ctx, "model", suite, cs, first_diff(&pi, &pm), text.clone(), &run.lines, &m);
     } else if !run.tail_lines.is_empty() || !m_tail.is_empty() {
-        // behind the first error item: the run continued after errors of the IO step (the state the model returns
-        // for those is the code's); compared on the same observables
-        ctx.report.bump("continued-after-io-error");
+        // behind the first error item: the run is continued behind every error item (the state the model returns
+        // there is the one the code is left in, Model/AfterError); compared on the same observables
+        ctx.report.bump("continued-after-error");
+        if run.lines.iter().rev().find(|l| l.starts_with("item ")).map(|l| l.contains(" err runtime")).unwrap_or(false)
+            && !run.lines.iter().rev().skip_while(|l| !l.starts_with("item ")).nth(1).map(|l| l.starts_with("call ")).unwrap_or(false)
+        {
+            ctx.report.bump("continued-after-eval-error");
+        }
+        if run.tail_lines.iter().any(|l| l.starts_with("item ") && l.contains(" row ")) {
+            ctx.report.bump("rows-behind-error-item");
+        }
         let (ti, tm) = (project(&prop, &run.tail_lines), project(&prop, &m_tail));
         if ti != tm {
             let mut il = run.lines.clone();
@@ -437,7 +445,7 @@ pub fn judge_run_case(ctx: &mut Ctx, suite: &str, cs: u64, case: &Case, src: &st
         "C02" => verdicts.push(oracle_c02(case, &run.post_lines)),
         "C03" => verdicts.push(oracle_c03(case, &run.lines, &run.script, &declared)),
         "C06" => verdicts.push(oracle_c06(case, &run.post_lines, &declared)),
-        "C10" => verdicts.push(oracle_no_panic(&run.lines)),
+        "C10" => verdicts.push(oracle_no_panic(&run.post_lines)),
         "C13" => {
             verdicts.push(oracle_c13(case, &run.lines, &run.script));
             verdicts.push(oracle_c03(case, &run.lines, &run.script, &declared));
